@@ -18,7 +18,7 @@ BUDGET = {"quick": 5000, "thorough": 100000}
 MIN_NONTRIVIAL = {"quick": 300, "thorough": 3000}
 RULE = (
     "two case families. size: one memref.alloc in L1 with a seeded type (row-major or #tsl.tsl with padding/gaps/offset, element widths "
-    "8..64, rank 1-4, tile depth 1-3, optionally a dynamic outermost bound resolved at run time) is lowered by memref-to-snax; the emitted size "
+    "8..64, rank 1-4, tile depth 1-3, optionally a dynamic outermost bound of one dimension (any) resolved at run time) is lowered by memref-to-snax; the emitted size "
     "arithmetic is executed and the snax.alloc size operand must be >= highest byte address the layout can touch + 1 (independent layout "
     "oracle). place: functions with 1-12 L1 allocs (different sizes, element types, alignments) at top level, subviews, casts and tagged uses "
     "in straight-line code and nested in scf.for (0-2 trips) / scf.if, joins of two buffers through arith.select / scf.if results / loop-carried values, in 15% of the cases a second function with its own buffers called from the first, lowered by memref-to-snax,canonicalize,snax-allocate{mode=static|"
@@ -36,12 +36,13 @@ def gen_case(rng, tier):
         depth = [rng.choice([1, 2, 2, 3]) for _ in range(rank)]
         tb = [[rng.choice([1, 2, 2, 3, 4]) for _ in range(depth[d])] for d in range(rank)]
         dyn = rng.random() < 0.3
+        dd = rng.choice([0, 0] + list(range(rank))) if dyn else 0  # the dimension whose outermost tile bound is dynamic
         kind = rng.choice(["tsl", "tsl", "none"])
-        case = {"fam": "size", "tb": tb, "el": rng.choice(list(EL)), "kind": kind, "dyn": dyn, "off": 0, "dynstep": False, "dyn_bound": rng.choice([1, 2, 3, 5])}
+        case = {"fam": "size", "tb": tb, "el": rng.choice(list(EL)), "kind": kind, "dyn": dyn, "dyn_dim": dd, "off": 0, "dynstep": False, "dyn_bound": rng.choice([1, 2, 3, 5])}
         if kind == "tsl":
-            case["steps"] = gen_steps(rng, tb, pad=rng.random() < 0.6, last=(0, 0) if dyn else None)
+            case["steps"] = gen_steps(rng, tb, pad=rng.random() < 0.6, last=(dd, 0) if dyn else None)
             case["off"] = rng.choice([0, 0, 5])
-            if dyn and rng.random() < 0.5 and a8_candidates(tb, case["steps"]).count(case["steps"][0][0]) >= 1:
+            if dyn and rng.random() < 0.5 and a8_candidates(tb, case["steps"], dd).count(case["steps"][dd][0]) >= 1:
                 case["dynstep"] = True
         return case
     mode = rng.choice(["static", "minimalloc", "minimalloc", "auto", "dynamic"])
@@ -62,15 +63,16 @@ def gen_case(rng, tier):
 def size_program(case):
     tb = case["tb"]
     shape = shape_of(tb)
-    sh = "x".join((["?"] if case["dyn"] else [str(shape[0])]) + [str(x) for x in shape[1:]])
+    dd = case.get("dyn_dim", 0)
+    sh = "x".join("?" if (case["dyn"] and d == dd) else str(x) for d, x in enumerate(shape))
     if case["kind"] == "none":
         lay = ""
     else:
         dyn = set()
         if case["dyn"]:
-            dyn.add((0, 0, "b"))
+            dyn.add((dd, 0, "b"))
         if case["dynstep"]:
-            dyn.add((0, 0, "s"))
+            dyn.add((dd, 0, "s"))
         lay = ", " + tsl_text(tb, case["steps"], case["off"], dyn)
     ty = f'memref<{sh}x{case["el"]}{lay}, "L1">'
     arg = "%d" if case["dyn"] else ""
@@ -91,8 +93,9 @@ def run_size(case, out):
         out["rejected"] = f"memref-to-snax:{type(e).__name__}"
         return out
     tb = [list(t) for t in case["tb"]]
+    dd = case.get("dyn_dim", 0)
     if case["dyn"]:
-        tb[0][0] = case["dyn_bound"]
+        tb[dd][0] = case["dyn_bound"]
     shape = shape_of(tb)
     eb = EL[case["el"]]
     if case["kind"] == "none":
@@ -102,7 +105,7 @@ def run_size(case, out):
     else:
         need = max(address(idx, tb, case["steps"], case["off"]) for idx in all_indices(shape)) * eb + eb
     m = AllocMachine(mod)
-    m.run_single("f", [shape[0]], Core(0))
+    m.run_single("f", [shape[dd]], Core(0))
     out["runs"] = out["zero_fault_runs"] = 1
     if len(m.snax_allocs) != 1:
         out["status"] = "rejected"
